@@ -2,7 +2,8 @@
 """Insert the table of seeded changes (from seeded/*/meta.json) into DESIGN.md between the SEED-TABLE markers."""
 import json,glob,os,re
 REMARK={"C02-r3-1":"accepted by design: value at the end point of an open support interval (section 8.5)",
-        "C03-r4-2":"state after a rejected call is C18's clause (section 8.5)"}
+        "C03-r4-2":"state after a rejected call is C18's clause (section 8.5)",
+        "C10-r2-3":"reported on the tree before F41; since the F41 repair the change no longer breaks the property (the acceptance test cannot see a NaN ratio any more) and its demonstration passes"}
 rows=[]
 for d in sorted(glob.glob("/verif/seeded/C*-*")):
     m=json.load(open(d+"/meta.json"))
